@@ -14,8 +14,26 @@ PROCEDURE_START_PREFIX = re.compile(r"(?i)procedure\s+([\w-]+)\s*$")
 # Procedures that have been called.
 INVOKED_PROCEDURE_NAMES = re.compile(r'(?i)\s*RUN\s+(\w+)(?=[^"]*(?:"[^"]*"[^"]*)*$)')
 
+# Start of a BASIC09 comment
+COMMENT_START = re.compile(r"(?i)\(\*|REM\b")
+
 # Finds STRING<<>> occurences so that they can be replaced with storage sizes
 STR_STORAGE_TAG = re.compile(r'(?i)\:\s*STRING\<\<\>\>(?=[^"]*(?:"[^"]*"[^"]*)*$)')
+
+
+def _without_comment(line: str) -> str:
+    """
+    Returns the line up to the start of a (* or REM comment that is not inside
+    a string literal.
+    """
+    in_str = False
+    for ii, ch in enumerate(line):
+        if ch == '"':
+            in_str = not in_str
+        elif not in_str and COMMENT_START.match(line, ii):
+            if ch == "(" or ii == 0 or not (line[ii - 1].isalnum() or line[ii - 1] in "_$"):
+                return line[:ii]
+    return line
 
 
 class ProcedureBank(object):
@@ -67,7 +85,7 @@ class ProcedureBank(object):
                 name = match[1]
                 name_to_procedure_array[name] = current_procedure
             current_procedure.append(line)
-            invoked_names = INVOKED_PROCEDURE_NAMES.findall(line)
+            invoked_names = INVOKED_PROCEDURE_NAMES.findall(_without_comment(line))
             self._name_to_dependencies[name].update(invoked_names)
 
         for name, procedure in name_to_procedure_array.items():
